@@ -132,7 +132,7 @@ def run(ck):
                 v = d.obj.items.get(k) if keys else None
                 M = matrix_of(v.term) if isinstance(v, VTens) and v.term is not None else None
                 ck.check(True if M is not None else None, "C04.R1", "%s: literal 2x2 complex matrix" % k, cd.site(), "the %s entry is not a literal (2,2,2) tensor over Q(sqrt 2): %r" % (k, getattr(v, "term", None)))
-                ck.check(isinstance(v, VTens) and v.shape == (2, 2, 2), "C04.R1", "%s: shape (2,2,2)" % k, cd.site(), "the %s entry has shape %s" % (k, getattr(v, "shape", None)))
+                ck.check(shape_is(v, (2, 2, 2)), "C04.R1", "%s: shape (2,2,2)" % k, cd.site(), "the %s entry has shape %s" % (k, getattr(v, "shape", None)))
                 mats[k] = M
             if mats.get("Z") is not None:
                 ck.check(mats["Z"] == I2, "C04.R1", "Z is the identity", cd.site(), "the Z unitary is %s, expected the identity" % (mats["Z"],))
@@ -195,7 +195,7 @@ def run(ck):
                      "create_dict(G=<nested list of python floats>): %s before the conversion to double - the stored unitary is the user's matrix rounded to single precision (entries off by ~3e-8, "
                      "rotated amplitudes by ~1e-7), not the per-site unitary the user gave" % (nar[0][1] if nar else ""), key="C04.R1|create_dict|user floats rounded to float32")
             v = p.value.obj.items.get("G") if isinstance(p.value, VDict) and p.value.obj.items else None
-            ck.check(isinstance(v, VTens) and v.shape == (2, 2, 2), "C04.R1", "user unitary given as python floats: shape (2,2,2)", cd.site(), "the stored entry has shape %s" % (getattr(v, "shape", None),))
+            ck.check(shape_is(v, (2, 2, 2)), "C04.R1", "user unitary given as python floats: shape (2,2,2)", cd.site(), "the stored entry has shape %s" % (getattr(v, "shape", None),))
 
         # a user unitary may only be refused for not being one: if a path refuses the symbolic matrix U = (Ur, Ui), the established
         # condition must be about U U^dagger (or U^dagger U) = 1, i.e. real part Ur Ur^T + Ui Ui^T (resp. Ur^T Ur + Ui^T Ui)
@@ -245,7 +245,7 @@ def run(ck):
             for p in paths:
                 it = p.interp
                 pn = _c(p)
-                es = [c for c in it.ext_calls if c[0] == "numpy.einsum" and "rotate_rho_probs" in c[3]]
+                es = [c for c in it.ext_calls if c[0] == "numpy.einsum" and within(c, "rotate_rho_probs")]
                 if len(es) != 1:
                     ck.undecided("C04.R2", inst + ":factor tensor [%s]" % pn, rrp.site(), "the factor tensor U (x) conj U is not built by exactly one np.einsum (found %d)" % len(es))
                     continue
@@ -265,7 +265,7 @@ def run(ck):
                 ket_ax, bra_ax = out.index(ket_letter[0]), out.index(bra_letter[0])
                 batch_ax = [i for i, l in enumerate(out) if l not in (ket_letter[0], bra_letter[0])]
                 # matrix multiplied into the factor tensor
-                nc = [c for c in p.calls if c[0].endswith("cplx.numpy") and "rotate_rho_probs" in c[3]]
+                nc = [c for c in p.calls if c[0].endswith("cplx.numpy") and within(c, "rotate_rho_probs")]
                 if len(nc) != 1:
                     ck.undecided("C04.R2", inst + ":matrix [%s]" % pn, rrp.site(), "the matrix multiplied into the factor tensor is not converted by one cplx.numpy call")
                     continue
@@ -333,10 +333,11 @@ def run(ck):
                 if terms_v.shape is not None and tot.shape is not None and len(terms_v.shape) == 3:
                     ck.check(tot.shape == (2,) + tuple(terms_v.shape[2:]), "C04.R2", inst + ":sum over the expansion axis only [%s]" % _c(p), rpi.site(),
                              "summand %s -> result %s: the reduction does not remove exactly the expansion axis" % (terms_v.shape, tot.shape))
-                nc = [c for c in p.calls if c[0].endswith("cplx.numpy") and "rotate_psi_inner_prod" in c[3]]
+                nc = [c for c in p.calls if c[0].endswith("cplx.numpy") and within(c, "rotate_psi_inner_prod")]
                 if which == "model" and nc:
-                    pc = [c for c in p.calls if c[0].endswith(".psi") and "rotate_psi_inner_prod" in c[3]]
-                    ck.check(len(pc) == 1 and pc[0][6] == nc[0][7].get("x") and pc[0][7].get("v") == (v.term if isinstance(v, VTens) else None), "C04.R2", inst + ":amplitudes of the expanded states [%s]" % _c(p), rpi.site(),
+                    pc = [c for c in p.calls if c[0].endswith(".psi") and within(c, "rotate_psi_inner_prod")]
+                    vt_ = v.term if isinstance(v, VTens) else None
+                    ck.check(any(c_[6] == nc[0][7].get("x") and c_[7].get("v") == vt_ for c_ in pc), "C04.R2", inst + ":amplitudes of the expanded states [%s]" % _c(p), rpi.site(),
                              "the amplitudes multiplied into the unitary factors are not psi(expanded states)")
                 if which == "explicit" and nc:
                     mt = nc[0][7].get("x")
@@ -415,7 +416,7 @@ def run(ck):
             at = vt.single_atom() if vt is not None else None
             okv = at is not None and isinstance(at, T.App) and at.op == "upd" and "states" in at.args[0].syms() and at.args[1][0] == "ellipsis" and any(isinstance(a, T.App) and a.op == "arange" for a in at.args[2].all_atoms())
             ck.check(True if okv else None, "C04.R3", "expanded states differ only on the rotated sites [%s]" % _c(p), rbs.site(), "expanded states are not `states` with the rotated sites overwritten by the enumerated subspace: %r" % (str(vt)[:200],))
-            nz = [c for c in p.interp.ext_calls if c[0] == "numpy.where" and "_rotate_basis_state" in c[3]]
+            nz = [c for c in p.interp.ext_calls if c[0] == "numpy.where" and within(c, "_rotate_basis_state")]
             lits = set()
             for c in nz:
                 if c[1] and isinstance(c[1][0], VTens) and c[1][0].term is not None:
@@ -567,7 +568,15 @@ def _kron_instance(ck, prog, km, ns):
             assumed_id = {k for k in range(ns) if set(cond_truths(p, lambda key, k=k: _is_re(key, k))) == {True} and set(cond_truths(p, lambda key, k=k: _is_im(key, k))) == {False}}
             conditioned = {k for k in range(ns) if any(len(c) > 3 and getattr(c[3], "term", None) is not None and c[3].term.syms() & {"u%dr" % k, "u%di" % k} for c in p.conds)}
             if t is None or t != x.term or (not steps and assumed_id != set(range(ns))):
-                ck.undecided("C04.R4", inst + ":block updates", site, "the result is not a chain of in-place block updates of a copy of the input")
+                v_ = _kron_vectorised(y.term if isinstance(y, VTens) else None, ns)
+                if v_ is None:
+                    ck.undecided("C04.R4", inst + ":block updates", site, "the result is not a chain of in-place block updates of a copy of the input")
+                elif v_[0] == "ok":
+                    ck.ok("C04.R4", inst + ":site s is contracted along the axis of stride 2^(n-1-s) (vectorised sweep)", site, strides=v_[1])
+                else:
+                    ck.violation("C04.R4", inst + ":site s is contracted along the axis of stride 2^(n-1-s) (vectorised sweep)", site,
+                                 "the sweep reshapes the state and contracts matrix s along an axis of stride %s; site 0 is the leftmost factor, so matrix s must act on the axis of stride 2^(n-1-s) = %s%s"
+                                 % (v_[1], {k: 2 ** (ns - 1 - k) for k in range(ns)}, " (the strides are those of the reversed site order)" if v_[0] == "reversed" else ""), key="C04.R4|%s|vectorised strides" % inst)
                 continue
             mm = [c for c in p.calls if c[0].endswith("cplx.matmul")]
             per_site = {}
@@ -629,6 +638,72 @@ def _kron_instance(ck, prog, km, ns):
             else:
                 ck.violation("C04.R4", inst + ":site s acts on the pairs {j, j + 2^(n-1-s)} once each", site,
                              "the unitaries act on the index pairs %s; expected %s" % (got, big))
+
+
+def _kron_vectorised(term, ns):
+    """A sweep written as `contract(matrix_s, state reshaped to (..., a, 2, b, ...))` per site (einsum / matmul on a view): from
+    the recorded reshape dimensions, the stride (in amplitudes) of the axis each matrix is contracted along.
+    Returns ('ok' | 'reversed' | 'wrong', {site: stride}) or None when this form is not recognised."""
+    if term is None:
+        return None
+    strides = {}
+    for a in term.all_atoms():
+        if not (isinstance(a, T.App) and a.op in ("einsum2", "matmul")):
+            continue
+        ops = a.args[1:] if a.op == "einsum2" else a.args
+        if len(ops) != 2:
+            continue
+        k = None
+        for o in ops:
+            sy = o.syms() if hasattr(o, "syms") else set()
+            ks = {int(x[1:-1]) for x in sy if len(x) >= 3 and x[0] == "u" and x[1:-1].isdigit() and x[-1] in "ri"}
+            if len(sy) == 1 and len(ks) == 1:
+                k = next(iter(ks))
+                mat = o
+        if k is None:
+            continue
+        other = ops[1] if ops[0] is mat else ops[0]
+        # the state operand: (a component of) view(<state>, dims)
+        oa = other.single_atom() if hasattr(other, "single_atom") else None
+        if isinstance(oa, T.App) and oa.op == "idx0":
+            oa = oa.args[0].single_atom() if hasattr(oa.args[0], "single_atom") else None
+            lead = 1  # the complex axis was in front of the viewed dims
+        else:
+            lead = 0
+        if not (isinstance(oa, T.App) and oa.op == "view"):
+            return None
+        try:
+            dims = [int(d) for d in oa.args[1]][lead:]
+        except (TypeError, ValueError):
+            return None
+        if a.op == "einsum2":
+            spec = a.args[0]
+            ins, out = spec.split("->")[0].split(","), spec.split("->")[1]
+            si = 1 if ops[0] is mat else 0
+            contracted = [c for c in ins[si] if c in ins[1 - si] and c not in out]
+            if len(contracted) != 1 or len(ins[si]) != len(dims):
+                return None
+            pos = ins[si].index(contracted[0])
+        else:
+            pos = len(dims) - 2
+        tail = dims[pos + 1:]
+        if tail and tail[-1] == -1:
+            tail = tail[:-1]  # the trailing batch axis
+        if any(d < 0 for d in tail):
+            return None
+        st = 1
+        for d in tail:
+            st *= d
+        if strides.get(k, st) != st:
+            return None
+        strides[k] = st
+    if set(strides) != set(range(ns)):
+        return None
+    if all(strides[k] == 2 ** (ns - 1 - k) for k in range(ns)):
+        return ("ok", strides)
+    if ns > 1 and all(strides[k] == 2 ** k for k in range(ns)):
+        return ("reversed", strides)
+    return ("wrong", strides)
 
 
 def _check_kron(ck, prog, km):
